@@ -27,7 +27,9 @@ VARIABLES l,        \* index of the next event
           dirt, dirty0, modBy, dirtyBy    \* C17 bookkeeping: last observed dirty pages, page -> first operation
 vars == <<l, tr, ob, fp, sp, src, cont, broken, dirt, dirty0, modBy, dirtyBy>>
 
-Viol(sig, detail) == PrintT(<<"VIOL", sig, l, detail>>)
+ViolS(sig, str) == PrintT(<<"VIOL", sig, l, str>>)       \* every VIOL line: <<"VIOL", signature, event index, detail string>>
+Viol(sig, detail) == ViolS(sig, ToString(detail))
+Vi(name, detail) == {<<name, ToString(detail)>>}      \* one fault; details as strings so that sets of faults stay comparable
 PageSet(runs) == UNION {runs[i][1]..(runs[i][1] + runs[i][2] - 1) : i \in 1..Len(runs)}
 DiffRuns(d) == [i \in 1..Len(d) |-> <<d[i][1], d[i][2]>>]
 NonEmptyMsgs(m) == SelectSeq(m, LAMBDA x : x # <<>>)
@@ -41,14 +43,14 @@ Obj(k, rem) == [k |-> k, rem |-> rem, done |-> 0, size |-> LenR(rem), spl |-> FA
 
 \* counters of every live object as logged, against the expected objects
 CounterViols(r, nob) ==
-  IF Len(r.all) # Len(nob) THEN {<<"counters", <<"objects", Len(r.all), Len(nob)>> >>}
-  ELSE {<<"counters", <<r.all[i], LenR(nob[i].rem), nob[i].done>> >> :
+  IF Len(r.all) # Len(nob) THEN Vi("counters", <<"objects", Len(r.all), Len(nob)>>)
+  ELSE {<<"counters", ToString(<<r.all[i], LenR(nob[i].rem), nob[i].done>>)>> :
           i \in {j \in 1..Len(nob) : r.all[j][2] # LenR(nob[j].rem) \/ r.all[j][3] # nob[j].done
                                      \/ r.all[j][2] + r.all[j][3] # nob[j].size}}
 
 Quiet(r) ==      \* an operation that must not move anything
-  (IF r.diff # <<>> THEN {<<"mem-modified", r.diff>>} ELSE {}) \cup
-  (IF Has(r, "msgs") /\ NonEmptyMsgs(r.msgs) # <<>> THEN {<<"fd", r.msgs>>} ELSE {})
+  (IF r.diff # <<>> THEN Vi("mem-modified", r.diff) ELSE {}) \cup
+  (IF Has(r, "msgs") /\ NonEmptyMsgs(r.msgs) # <<>> THEN Vi("fd", r.msgs) ELSE {})
 
 JudgeSplit(r) ==
   LET o == r.o  x == ob[o]  A == LenR(x.rem)  off == r.n  L == x.done
@@ -65,11 +67,11 @@ JudgeSplit(r) ==
              ELSE
                Append([ob EXCEPT ![o] = [x EXCEPT !.rem = TakeR(x.rem, off), !.size = L + off, !.spl = TRUE]],
                       [k |-> x.k, rem |-> DropR(x.rem, off), done |-> 0, size |-> A - off, spl |-> TRUE, cont |-> <<>>])
-      faults == {<<f, <<off, room, r.res>> >> : f \in SplitFaults(off, room, r.res)}
+      faults == {<<f, ToString(<<off, room, r.res>>)>> : f \in SplitFaults(off, room, r.res)}
       nob2 == IF r.res = "ok" THEN nob ELSE ob IN
   [ob |-> nob2, fp |-> fp, sp |-> sp,
    viols |-> faults \cup (IF faults = {} THEN CounterViols(r, nob2) ELSE {}) \cup Quiet(r)
-             \cup (IF r.res = "ok" /\ ok /\ (~Has(r, "new") \/ r.new # Len(ob) + 1) THEN {<<"new-object", r>>} ELSE {})]
+             \cup (IF r.res = "ok" /\ ok /\ (~Has(r, "new") \/ r.new # Len(ob) + 1) THEN Vi("new-object", r) ELSE {})]
 
 JudgeCommit(r) ==
   LET o == r.o  x == ob[o]
@@ -77,9 +79,9 @@ JudgeCommit(r) ==
       exp == IF x.k = "F" /\ x.spl /\ LenR(x.cont \o other) > 0 THEN <<Ramps(x.cont \o other)>> ELSE <<>>
       got == IF Has(r, "msgs") THEN NonEmptyMsgs(r.msgs) ELSE <<>> IN
   [ob |-> ob, fp |-> fp, sp |-> sp,
-   viols |-> (IF got # exp THEN {<<"fd", <<got, exp>> >>} ELSE {})
-             \cup (IF r.res # "ok" THEN {<<"spurious-failure", r.res>>} ELSE {})
-             \cup (IF r.diff # <<>> THEN {<<"mem-modified", r.diff>>} ELSE {})
+   viols |-> (IF got # exp THEN Vi("fd", <<got, exp>>) ELSE {})
+             \cup (IF r.res # "ok" THEN Vi("spurious-failure", r.res) ELSE {})
+             \cup (IF r.diff # <<>> THEN Vi("mem-modified", r.diff) ELSE {})
              \cup CounterViols(r, ob)]
 
 JudgeMove(r) ==
@@ -100,28 +102,28 @@ JudgeMove(r) ==
       nsp == IF op \in {"read_to", "read_exact_to"} THEN sp + d ELSE sp
       nob == [ob EXCEPT ![o] = [x EXCEPT !.rem = DropR(x.rem, d), !.done = x.done + d,
                                          !.cont = IF x.k = "F" THEN x.cont \o source ELSE x.cont]]
-      rf == {<<f, <<n, A, r.res, ret, d>> >> : f \in ResFaults(op, n, A, r.res, ret, dobs, usable)}
+      rf == {<<f, ToString(<<n, A, r.res, ret, d>>)>> : f \in ResFaults(op, n, A, r.res, ret, dobs, usable)}
       reader ==
-        (IF r.diff # <<>> THEN {<<"mem-modified", r.diff>>} ELSE {}) \cup
-        (IF Has(r, "out") /\ r.out # Ramps(target) THEN {<<"bytes", <<r.out, Ramps(target)>> >>} ELSE {}) \cup
+        (IF r.diff # <<>> THEN Vi("mem-modified", r.diff) ELSE {}) \cup
+        (IF Has(r, "out") /\ r.out # Ramps(target) THEN Vi("bytes", <<r.out, Ramps(target)>>) ELSE {}) \cup
         (IF op \in FileSinkOps /\ r.fdiff # RampZ(ZipR(<< <<sstart, d>> >>, target))
-           THEN {<<"bytes", <<r.fdiff, RampZ(ZipR(<< <<sstart, d>> >>, target))>> >>} ELSE {}) \cup
-        (IF op \in FileSinkOps /\ r.spos # nsp THEN {<<"filepos", <<r.spos, nsp>> >>} ELSE {})
+           THEN Vi("bytes", <<r.fdiff, RampZ(ZipR(<< <<sstart, d>> >>, target))>>) ELSE {}) \cup
+        (IF op \in FileSinkOps /\ r.spos # nsp THEN Vi("filepos", <<r.spos, nsp>>) ELSE {})
       writer ==
-        (IF op \in FileSrcOps /\ fstart + d > src[1] /\ d > 0 THEN {<<"bytes", <<"beyond-eof", fstart, d, src[1]>> >>} ELSE {}) \cup
+        (IF op \in FileSrcOps /\ fstart + d > src[1] /\ d > 0 THEN Vi("bytes", <<"beyond-eof", fstart, d, src[1]>>) ELSE {}) \cup
         (IF r.diff # expdiff /\ ~(direct /\ op \notin FileSrcOps /\ r.diff = <<>>)
-           THEN {<<"placed", <<r.diff, expdiff>> >>} ELSE {}) \cup
+           THEN Vi("placed", <<r.diff, expdiff>>) ELSE {}) \cup
         (IF x.k = "F" /\ msgs # (IF direct /\ d > 0 THEN <<Ramps(source)>> ELSE <<>>)
-           THEN {<<"fd", <<msgs, IF direct /\ d > 0 THEN <<Ramps(source)>> ELSE <<>> >> >>} ELSE {}) \cup
-        (IF r.fpos # nfp THEN {<<"filepos", <<r.fpos, nfp>> >>} ELSE {}) \cup
-        (IF n > A /\ r.diff # <<>> THEN {<<"fail-not-clean", r.diff>>} ELSE {}) IN
+           THEN Vi("fd", <<msgs, IF direct /\ d > 0 THEN <<Ramps(source)>> ELSE <<>> >>) ELSE {}) \cup
+        (IF r.fpos # nfp THEN Vi("filepos", <<r.fpos, nfp>>) ELSE {}) \cup
+        (IF n > A /\ r.diff # <<>> THEN Vi("fail-not-clean", r.diff) ELSE {}) IN
   [ob |-> nob, fp |-> nfp, sp |-> nsp,
-   viols |-> rf \cup (IF dobs < 0 THEN {<<"counters", <<"done decreased", r.all[o], x.done>> >>} ELSE {})
+   viols |-> rf \cup (IF dobs < 0 THEN Vi("counters", <<"done decreased", r.all[o], x.done>>) ELSE {})
              \cup (IF op \in ReaderOps THEN reader ELSE writer) \cup CounterViols(r, nob)]
 
 JudgeTransport(r) ==
   LET j == IF r.op = "split_at" THEN JudgeSplit(r) ELSE IF r.op = "commit" THEN JudgeCommit(r) ELSE JudgeMove(r) IN
-  [j EXCEPT !.viols = @ \cup (IF r.canary THEN {} ELSE {<<"oob", r.diff>>})]
+  [j EXCEPT !.viols = @ \cup (IF r.canary THEN {} ELSE Vi("oob", r.diff))]
 
 (* ------------------------------- containers (PlainView) ------------------------------- *)
 FvsReadOps  == {"fvs.read", "fvs.read_slice", "fvs.load", "fvs.write_volatile_to", "fvs.write_all_volatile_to"}
@@ -158,19 +160,19 @@ JudgeFvs(r) ==
       fit == IF a < x.len THEN Min(n, x.len - a) ELSE 0
       partial == op \in FvsWriteOps /\ ~ok /\ r.content = Ramps(Splice(cont, at, << <<r.v, fit>> >>))
       V == (IF r.content # Ramps(ncont) /\ ~partial
-              THEN {<<IF op \in FvsWriteOps \/ op = "buf.fill" THEN "placed" ELSE "mem-modified",
-                      <<r.content, Ramps(ncont)>> >>} ELSE {}) \cup
-           (IF ~r.canary THEN {<<"oob", r.content>>} ELSE {}) \cup
-           (IF ok /\ ~inside /\ op \in (FvsReadOps \cup FvsWriteOps) THEN {<<"exceed-not-failed", <<a, k, x.len>> >>} ELSE {}) \cup
+              THEN Vi(IF op \in FvsWriteOps \/ op = "buf.fill" THEN "placed" ELSE "mem-modified",
+                      <<r.content, Ramps(ncont)>>) ELSE {}) \cup
+           (IF ~r.canary THEN Vi("oob", r.content) ELSE {}) \cup
+           (IF ok /\ ~inside /\ op \in (FvsReadOps \cup FvsWriteOps) THEN Vi("exceed-not-failed", <<a, k, x.len>>) ELSE {}) \cup
            (IF ok /\ (op \in FvsReadOps \/ op = "buf.peek") /\ (~Has(r, "out") \/ r.out # expout)
-              THEN {<<"bytes", <<IF Has(r, "out") THEN r.out ELSE <<>>, expout>> >>} ELSE {}) \cup
-           (IF ok /\ Has(r, "ret") /\ op \notin FvsExactOps /\ r.ret > n THEN {<<"ret", <<r.ret, n>> >>} ELSE {}) \cup
-           (IF op \in FvsExactOps /\ exceed /\ ok THEN {<<"exceed-not-failed", <<a, n, x.len>> >>} ELSE {}) \cup
-           (IF op \in FvsMustOk /\ a + n <= x.len /\ ~ok THEN {<<"spurious-failure", <<a, n, x.len>> >>} ELSE {}) \cup
-           (IF op = "fvs.offset" /\ ok # (a <= x.len) THEN {<<"split", <<a, x.len, r.res>> >>} ELSE {}) \cup
-           (IF op = "buf.fill" /\ r.ret # Min(n, x.len - x.size) THEN {<<"window", <<r.ret, n, x.len, x.size>> >>} ELSE {}) \cup
-           (IF r.win # WinOf(nx) THEN {<<"window", <<r.win, WinOf(nx)>> >>} ELSE {}) \cup
-           (IF creates /\ (r.new # Len(ob) + 1 \/ r.newwin # WinOf(nview)) THEN {<<"window", <<r.newwin, WinOf(nview)>> >>} ELSE {}) IN
+              THEN Vi("bytes", <<IF Has(r, "out") THEN r.out ELSE <<>>, expout>>) ELSE {}) \cup
+           (IF ok /\ Has(r, "ret") /\ op \notin FvsExactOps /\ r.ret > n THEN Vi("ret", <<r.ret, n>>) ELSE {}) \cup
+           (IF op \in FvsExactOps /\ exceed /\ ok THEN Vi("exceed-not-failed", <<a, n, x.len>>) ELSE {}) \cup
+           (IF op \in FvsMustOk /\ a + n <= x.len /\ ~ok THEN Vi("spurious-failure", <<a, n, x.len>>) ELSE {}) \cup
+           (IF op = "fvs.offset" /\ ok # (a <= x.len) THEN Vi("split", <<a, x.len, r.res>>) ELSE {}) \cup
+           (IF op = "buf.fill" /\ r.ret # Min(n, x.len - x.size) THEN Vi("window", <<r.ret, n, x.len, x.size>>) ELSE {}) \cup
+           (IF r.win # WinOf(nx) THEN Vi("window", <<r.win, WinOf(nx)>>) ELSE {}) \cup
+           (IF creates /\ (r.new # Len(ob) + 1 \/ r.newwin # WinOf(nview)) THEN Vi("window", <<r.newwin, WinOf(nview)>>) ELSE {}) IN
   [ob |-> nob, viols |-> V]
 
 (* ------------------------------- the trace automaton ------------------------------- *)
@@ -205,13 +207,13 @@ Track(r, name) ==
 OpStep(r) ==
   IF tr = "fvs" THEN
     LET j == JudgeFvs(r) IN
-    /\ TRUE = (\A v \in j.viols : Viol("C04|" \o r.op \o "|" \o v[1], v[2]))
+    /\ TRUE = (\A v \in j.viols : ViolS("C04|" \o r.op \o "|" \o v[1], v[2]))
     /\ ob' = j.ob
     /\ cont' = r.content                       \* re-synchronise on what was observed
     /\ UNCHANGED <<tr, fp, sp, src, broken, dirt, dirty0, modBy, dirtyBy>>
   ELSE
     LET j == IF broken THEN [ob |-> ob, fp |-> fp, sp |-> sp, viols |-> {}] ELSE JudgeTransport(r) IN
-    /\ TRUE = (\A v \in j.viols : Viol("C04|" \o r.op \o "|" \o v[1], v[2]))
+    /\ TRUE = (\A v \in j.viols : ViolS("C04|" \o r.op \o "|" \o v[1], v[2]))
     /\ ob' = j.ob /\ fp' = j.fp /\ sp' = j.sp
     /\ broken' = (broken \/ j.viols # {})
     /\ Track(r, r.op)
